@@ -438,6 +438,14 @@ func runC20(c *explore.Ctx) {
 				c20Run(m, c20Input{Entry: "LoadSchema", Sources: []string{"type Query { a: Int }", "\"\"\"\n説明文説明文説明文\n\"\"\" type A { f: Missing }"}, Names: []string{"a.graphql", "b.graphql"}})
 			}
 		}
+		if c.Shard == 0 {
+			// documents with hundreds of errors: every one of them is well-formed
+			for _, q := range c18LargeDocs() {
+				s.States++
+				c20Run(m, c20Input{Entry: "Validate", Query: q, Names: []string{"query.graphql"}})
+				c20Run(m, c20Input{Entry: "LoadQuery", Query: q})
+			}
+		}
 		forEachProfileDoc(c, s, "", func(d kitDoc) {
 			c20Run(m, c20Input{Entry: "Validate", Query: d.Doc, Names: []string{"query.graphql"}, Schema: d.Schema, Limit: 1})
 			c20Run(m, c20Input{Entry: "Validate", Query: d.Doc, Names: []string{"query.graphql"}, Schema: d.Schema})
@@ -484,12 +492,14 @@ func runC20(c *explore.Ctx) {
 	}
 
 	// 5. paths
-	s = c.Sub("paths", "every path of ≤ 6 elements over {name a, empty name, name \"0\", index 0, index 1, index 7}", "json.Marshal followed by json.Unmarshal is the identity on the path; an error carrying it has the spec shape", "every path")
+	s = c.Sub("paths", "every path of ≤ 5/6 elements over {name a, empty name, name \"0\", index 0, index 1, index 7, a name with a C0 control character, a name of DEL and a non-printable astral character, a name with quote, backslash, < and U+2028}", "json.Marshal followed by json.Unmarshal is the identity on the path; an error carrying it has the spec shape", "every path")
 	if s != nil {
 		t0 := time.Now()
 		m := newMon(s)
-		elems := []ast.PathElement{ast.PathName("a"), ast.PathName(""), ast.PathName("0"), ast.PathIndex(0), ast.PathIndex(1), ast.PathIndex(7)}
-		st, tr, ok := explore.Seqs(len(elems), 6, c.Shard, c.NShards, c.Expired, func(sym []int) bool {
+		elems := []ast.PathElement{ast.PathName("a"), ast.PathName(""), ast.PathName("0"), ast.PathIndex(0), ast.PathIndex(1), ast.PathIndex(7),
+			// names are map keys of the caller's variables: any string at all
+			ast.PathName("na\ame"), ast.PathName("\x7f\U000e0001"), ast.PathName("é\"\\<\u2028")}
+		st, tr, ok := explore.Seqs(len(elems), c.Pick(5, 6), c.Shard, c.NShards, c.Expired, func(sym []int) bool {
 			s.Executions++
 			p := ast.Path{}
 			for _, x := range sym {
@@ -505,7 +515,7 @@ func runC20(c *explore.Ctx) {
 			if err != nil || !samePath(back, p) {
 				c.Report(s, explore.Violation{Key: "error/path-roundtrip", Input: explore.J(c20Input{Entry: "path", Path: pathAny(p)}), Rendered: string(b), Detail: fmt.Sprintf("path %v encodes to %s and decodes to %v (%v)", p, b, back, err)})
 			}
-			if len(sym) == 6 || len(sym) <= 2 {
+			if len(sym) >= 5 || len(sym) <= 2 {
 				m.check(c20Input{Entry: "path", Path: pathAny(p)}, gqlerror.ErrorPathf(p, "m"), "path", false, nil)
 			}
 			return true
